@@ -354,7 +354,8 @@ ArpElems == [len : {8, 27, 28, 46}, hlen : {6, 5}, plen : {4, 6}, op : {1, 2, 3}
 ArpStep(e, a) == IF e.len < 28 THEN [adv |-> 0, acc |-> Rej("short", a.val)]
                  ELSE IF e.hlen # 6 \/ e.plen # 4 \/ ~e.eth THEN [adv |-> 0, acc |-> Rej("fields", a.val)]
                  ELSE [adv |-> 1, acc |-> Go(<<e.kind, e.op>>)]
-LlcElems == [sap : {"stp", "snap", "ipx", "other"}, ctl : {3, 0, 1}, len : {0, 2, 3, 4, 8, 9, 20}]
+\* payload lengths up to the largest 802.3 frame: some paths (the rate limited STP log line) render the whole payload
+LlcElems == [sap : {"stp", "snap", "ipx", "other"}, ctl : {3, 0, 1}, len : {0, 2, 3, 4, 8, 9, 20, 46, 600, 640, 1000, 1497, 1500}]
 LlcStep(e, a) == IF e.len < 3 THEN [adv |-> 0, acc |-> Rej("short", a.val)]
                  ELSE IF e.sap = "snap" /\ e.ctl = 3 /\ e.len < 9 THEN [adv |-> 0, acc |-> Rej("snap.short", a.val)]
                  ELSE [adv |-> 1, acc |-> Go(<<e.sap>>)]
